@@ -43,6 +43,8 @@ func checkC14(c *Ctx) {
 	c.Alias("C01.R1", "")
 	c.Alias("C01.R2", "")
 	c.Alias("C01.R3", "")
+	premiseBounds(c, "C14.R6", "Clip and the *Bounds shortcuts decide by the operands' Bounds()")
+	c.Floor("C14.R6", 16)
 	c.Floor("C14.R5", 3)
 	c.Floor("C14.R1", 2)
 	c.Floor("C14.R2", 2)
